@@ -420,6 +420,10 @@ pub fn check_dedup(sink: &mut Sink, xot: &mut Xot, vocab: &mut Vocab, t: &GTree,
                             }
                         }
                         (Some(_), Ok(_), Err(_)) => fail(sink, "C15", "C15:output-unparseable-after-dedup", &format!("before: {} after: {}", s, s2), t, path, "dedup"),
+                        (_, Err(xot::ParseError::InvalidNamespaceDeclaration(..)), _) if has_prefix_bound_to_empty_uri(t) => {
+                            // xmlns:p="" (API only) is written as it is and rejected by the parser
+                            sink.stat("dedup.before-text-rejected.prefix-bound-to-empty-uri")
+                        }
                         _ => sink.stat("dedup.before-text-not-a-document"),
                     }
                 }
